@@ -607,6 +607,7 @@ def run_case(desc):
         (JD.enable_multithreading if thr else JD.disable_multithreading)()
         ids = {f: project.open_job(sp_of(f)).id for f in range(1, NFILES)}
         objs = {}
+        fid_of = {}
         try:
             for n, it in enumerate(prog):
                 k = it[0]
@@ -614,6 +615,7 @@ def run_case(desc):
                     val = None
                     if k == "open":
                         objs[it[1]] = signac.get_project(root) if it[2] == 0 else project.open_job(sp_of(it[2]))
+                        fid_of[it[1]] = it[2]
                     elif k == "op":
                         o = objs[it[1]]
                         if it[3][0] == "reset" and not it[2] and n % 2 == 0:
@@ -622,8 +624,15 @@ def run_case(desc):
                             val = do_op(o.document if n % 3 else o.doc, it[2], copy.deepcopy(it[3]), n % 2 == 1)
                     elif k == "rekey":
                         objs[it[1]].statepoint = sp_of(it[2])
+                        fid_of[it[1]] = it[2]
                     elif k == "remove":
-                        objs[it[1]].remove()
+                        try:
+                            objs[it[1]].remove()
+                        except Exception:
+                            # remove() raised half way (BufferedError of a forced flush): the object is discarded,
+                            # the program continues with a fresh Job object for the same job
+                            objs[it[1]] = project.open_job(sp_of(fid_of[it[1]]))
+                            raise
                     elif k == "init":
                         objs[it[1]].init()
                     elif k == "enter":
